@@ -483,6 +483,15 @@ def main(argv=None):
             fresh.append({"property": pid, "key": key, "case": None,
                           "finding": "%d violations with this key (witness list truncated)" % n})
 
+    # a known finding is a recorded defect, not a licence: if far more executions fall under its mechanism key than when it
+    # was recorded, something else is going on (a change that makes the weakness common would otherwise hide behind it)
+    fl0 = mod.floors(tier) if hasattr(mod, "floors") else {}
+    for key, frac in (fl0.get("max_known_finding_frac") or {}).items():
+        n_key = m["violation_keys"].get(key, 0)
+        if key in known and n_key > frac * max(1, m["evaluations"]):
+            fresh.append({"property": pid, "key": key + ":rate-above-the-recorded-one", "case": None,
+                          "finding": "%d of %d executions fall under the known finding %r: more than the %.3g%% allowed for it" % (n_key, m["evaluations"], key, 100 * frac)})
+
     # pinned known-finding witnesses are replayed by a worker shard of kind "pinned"
     pinned_lines = []
     for key, info in known.items():
